@@ -389,14 +389,18 @@ def r5(ctx, fs):
     ctx.rule(rid, 'atom::new_eq and atom::equates: identity, predicate-name test, delegation to an object variable, then a breadth-first visit of the predicate and all its '
                   'super-predicates comparing every non-synthetic field of both atoms (new_eq collects the equalities, equates fails on the first mismatch)', floor=8)
     res = {}
+    unrec = []
     for nm in ('new_eq', 'equates'):
         f = fs.fn('ratio::atom::' + nm)
         env = LocalEnv(f)
         env.param_roles(['i'])
-        q = env.local_role('q', lambda n, i: 'std::queue<' in (n.get('t') or ''))
+        q = env.local_role('q', lambda n, i: 'std::queue<' in (n.get('t') or ''), optional=True)
         wl = [n for n in f.nodes() if n.get('k') == 'WhileStmt']
-        if len(wl) != 1:
-            raise AnalysisBroken('%s: traversal loop not found' % f.id)
+        if q is None or len(wl) != 1:
+            # no work-list traversal recognised in this one: decided below against its sibling (the two must visit the same fields)
+            res[nm] = None
+            unrec.append(f)
+            continue
         body = wl[0]['slots']['body']
         loops = [n for n in walk(body) if n.get('k') == 'CXXForRangeStmt']
         rngs = {show(canon(n['slots']['range'], env, subst=False)): n for n in loops}
@@ -466,6 +470,13 @@ def r5(ctx, fs):
         ctx.instance(rid, [f.id, 'preliminary'], {'identity': idn, 'different_predicate': typ})
         if not okp:
             ctx.finding(rid, f.id, 'preliminary', 'atom::%s: an atom equals itself; atoms of different predicates never unify (found identity -> %s, different predicate -> %s)' % (nm, idn, typ), loc=f.loc)
+    if len(unrec) == 2:
+        raise AnalysisBroken('%s / %s: traversal loop not found' % (unrec[0].id, unrec[1].id))
+    if len(unrec) == 1:
+        g = unrec[0]
+        ctx.finding(rid, g.id, 'traversal', 'atom::%s does not visit the predicate and all its super-predicates with a work list as its sibling does: the arguments compared by new_eq and by equates are no '
+                    'longer the same set (an argument inherited from an indirect super-predicate is not forced equal / not compared)' % g.name.rsplit('::', 1)[-1], loc=g.loc,
+                    expect='q.push(&get_type()); while (!q.empty()) { fields of q.front(); push every supertype; q.pop(); }')
     # which fields are synthetic (and therefore invisible to atom equality): only the `this` / `return` pseudo-variables of constructors and methods
     SYN_OK = {('ratio::constructor::constructor', 'this'), ('ratio::method::method', 'this'), ('ratio::method::method', 'return')}
     nsites = 0
@@ -487,7 +498,7 @@ def r5(ctx, fs):
                     short(g.name), repr(nm) if nm else 'of ' + src(n)[:80], show(syn)), node=n, expect='synthetic only for the this / return pseudo-variables of constructors and methods')
     if nsites < 15:
         raise AnalysisBroken('C03.R5: only %d constructions of ratio::field found (expected >= 15)' % nsites)
-    if res['new_eq'][2] != res['equates'][2]:
+    if res['new_eq'] is not None and res['equates'] is not None and res['new_eq'][2] != res['equates'][2]:
         ctx.finding(rid, res['equates'][0].id, 'sibling', 'atom::equates and atom::new_eq filter fields differently (%s vs %s): a unification could be offered whose equality literal ignores an argument' % (
             show(res['equates'][2]), show(res['new_eq'][2])), loc=res['equates'][0].loc)
 
